@@ -181,9 +181,10 @@ def regSet (rs : List (Char × Clip)) (n : Char) (v : Clip) : List (Char × Clip
 def regGet (rs : List (Char × Clip)) (n : Char) : Option Clip :=
   (rs.find? (fun p => p.1 == n)).map (·.2)
 
-/-- store cut data: named register (when the name is valid) or clipboard; nothing when empty -/
+/-- store cut data: named register (when the name is valid) or clipboard; nothing when the
+    data is empty and not LINES (`clipboard_data.text or clipboard_data.type == LINES`) -/
 def store (s : St) (reg : Option Char) (c : Clip) : St :=
-  if c.text.isEmpty then s
+  if c.text.isEmpty && !c.lines then s
   else match reg with
     | some r => if isRegName r then { s with regs := regSet s.regs r c } else s
     | none => { s with clip := c }
